@@ -4,8 +4,8 @@
 int main(int argc, char **argv) {
     vf::opts o(argc, argv);
     vf::install_crash_handler();
-    RUN("scheduler_manual", 1, false, scn::scheduler_manual(o, R, o.cases));
-    RUN("scheduler_virtual", 1, false, scn::scheduler_virtual(o, R, o.cases / 10 + 1));
+    RUN("scheduler_manual", 1, true, scn::scheduler_manual(o, R, o.cases));
+    RUN("scheduler_virtual", 1, true, scn::scheduler_virtual(o, R, o.cases / 10 + 1));
     RUN("scheduler_threads", 1, true, scn::scheduler_threads(o, R, T, o.cases / 100 + 1));
     RUN("scheduler_stop_race", 1, true, scn::scheduler_stop_race(o, R, T, o.cases / 20 + 1));
     RUN("scheduler_interval_stop", 1, true, scn::scheduler_interval_stop(o, R, T, o.cases / 300 + 1));
